@@ -325,7 +325,7 @@ class Tmpl:
     alternative maps callee slot -> 'own:<slot>' | 'val'."""
 
     def __init__(self, name, slots, args, ret, body, calls=None, type_pool=None, force_abstract=(),
-                 requires=None, exec_ok=True, vars_=None):
+                 requires=None, exec_ok=True, vars_=None, first_arg=None):
         self.name, self.slots, self.args, self.ret, self.body = name, slots, args, ret, body
         self.calls = calls or {}
         self.type_pool = type_pool or {}
@@ -333,6 +333,7 @@ class Tmpl:
         self.requires = requires  # fn(abstract set) -> bool
         self.exec_ok = exec_ok
         self.vars = vars_ or {}
+        self.first_arg = first_arg  # runtime argument that must stay in front (it fixes a type parameter)
 
     def slot_kind(self, s):
         return dict(self.slots)[s]
@@ -377,6 +378,15 @@ def _unbox_body(R, inst):
 
 def _dep_body(R, inst):
     return [f"return {R.v('x')}, y"]
+
+
+def _depfwd_body(R, inst):
+    # a dependent constant forwarded, together with its type, to another generic function
+    a1 = R.call("c1", {"y": "y"})
+    return [
+        f"p, q = {a1}",
+        f"return p, {R.v('x')}, q",
+    ]
 
 
 def _vsum_body(R, inst):
@@ -541,9 +551,15 @@ _reg(Tmpl("hof", [("T", "type"), ("m", "nat")],
                  "c2": ("app", [{"T": "int", "m": "own:m"}, {"T": "int", "m": "val"}])},
           vars_={"f": ("fn", (S("T"),), S("T")), "x": S("T")}))
 
-ROOTS = ["pick", "rot", "wrap", "unbox", "dep", "vsum", "app", "fsc", "fsc", "sel", "sel", "outer1", "outer1",
+_reg(Tmpl("depfwd", [("T", "type"), ("x", "dep:T")],
+          [("y", S("T"), False), ("x", "comptime")],
+          ("tuple", (S("T"), S("T"), S("T"))), _depfwd_body, type_pool={"T": [INT, FLOAT, BOOL, NAT, NAT]},
+          requires=lambda ab: "x" in ab or "T" not in ab,
+          calls={"c1": ("dep", [{"T": "own:T", "x": "own:x"}])}, vars_={"y": S("T")}, first_arg="y"))
+
+ROOTS = ["depfwd", "depfwd", "pick", "rot", "wrap", "unbox", "dep", "vsum", "app", "fsc", "fsc", "sel", "sel", "outer1", "outer1",
          "outer2", "outer2", "chain", "chain", "twice", "hof", "hof"]
-DEPS = {"outer1": ["pick"], "outer2": ["unbox", "dep"], "chain": ["outer1", "pick"], "twice": ["wrap"], "hof": ["app"]}
+DEPS = {"depfwd": ["dep"], "outer1": ["pick"], "outer2": ["unbox", "dep"], "chain": ["outer1", "pick"], "twice": ["wrap"], "hof": ["app"]}
 
 CONST_POOL = {
     "nat": [0, 1, 2, 3, 4],
@@ -970,11 +986,14 @@ def generic_irs(draw, executable=True, max_roots=2):
             bracket = list(draw(st.permutations(ts)))[:k]
         arg_order = list(draw(st.permutations([a[0] for a in t.args])))
         monos = [a for a in arg_order if a in abstract and (t.slot_kind(a) in MONO_KINDS or t.slot_kind(a).startswith("dep:"))]
-        if monos and draw(st.booleans()):
+        if monos and t.first_arg is None and draw(st.booleans()):
             # a parameter that must be monomorphized in front of the ones that stay generic in the HUGR
             first = draw(st.sampled_from(monos))
             arg_order.remove(first)
             arg_order.insert(0, first)
+        if t.first_arg is not None:
+            arg_order.remove(t.first_arg)
+            arg_order.insert(0, t.first_arg)
         bind = {}
         for key, (callee, alts) in t.calls.items():
             ct, cf = TEMPLATES[callee], funcs[callee]
